@@ -1,4 +1,4 @@
 """Which contract modules and bounded harnesses decide which property."""
 PROPS = {
-    "C20": dict(contracts=["contracts.c20_grid"], bounded=None, level="proof"),
+    "C20": dict(contracts=["contracts.c20_grid", "contracts.c20_tables"], bounded="bounded.c20", level="proof"),
 }
